@@ -222,7 +222,16 @@ def make(interp):
         xs = list(interp.iterate(it))
         keys = [interp.call(key, [x], {}) if key is not None else x for x in xs]
         if any(is_sym(k) for k in keys):
-            raise Unsupported('sorted() with symbolic keys')
+            # stable insertion sort; every comparison branches, so each feasible order is explored on its own path
+            if reverse or len(xs) > 4:
+                raise Unsupported('sorted() with symbolic keys (reverse, or more than 4 items)')
+            order = []
+            for i in range(len(xs)):
+                pos = len(order)
+                while pos > 0 and truth(keys[i] < keys[order[pos - 1]]):
+                    pos -= 1
+                order.insert(pos, i)
+            return [xs[i] for i in order]
         order = sorted(range(len(xs)), key=lambda i: keys[i], reverse=reverse)
         if reverse:
             # python's reverse sort is stable: equal keys keep original order
@@ -359,9 +368,19 @@ def make(interp):
 
     @model
     def b_hash(x):
-        core.ctx().event('taint', 'hash')
+        c = core.ctx()
+        c.event('taint', 'hash')
         if is_sym(x):
             raise Unsupported('hash() of symbolic value')
+        if isinstance(x, str):
+            # PY-STR-HASH: str hashes are randomised per process -- an arbitrary integer, the same for equal strings
+            c.lib_used.add('PY-STR-HASH (the hash of a str is an arbitrary integer, fixed per string within a run)')
+            tab = getattr(c, '_str_hashes', None)
+            if tab is None:
+                tab = c._str_hashes = {}
+            if x not in tab:
+                tab[x] = c.fresh_int('strhash')
+            return tab[x]
         return hash(x)
 
     @model
